@@ -99,7 +99,7 @@ pub fn explore_case(desc: String, base: &RunCfg, max_paths: u64, body: &dyn Fn()
             if panicked {
                 let m = pmsg.clone().unwrap_or_default();
                 // engine-internal assertion failures are inconclusive, panics in the code under test are findings
-                let engine = m.contains("symcore") || m.contains("symlab") || m.contains("Big overflow");
+                let engine = m.contains("symcore") || m.contains("symlab") || m.contains("Big overflow") || m.contains("/scen/src/") || m.contains("/scen-tr/src/");
                 c.fail("panic", format!("the scenario panicked: {m}"), engine);
             }
             c.confirm_path();
